@@ -275,6 +275,30 @@ Definition ofile_eqb (a b : ofile) : bool :=
 Definition writes_of (k : ofile) (l : list (Z * ofile)) : list Z :=
   flat_map (fun w : Z * ofile => if ofile_eqb (snd w) k then [fst w] else []) l.
 
+(* colvarbias_abf::write_output_files: each call (at the steps w, in order) also appends a block to the history files
+   when the step is a multiple of historyFreq and is not the step of the previous block (history_last_step) *)
+Fixpoint abf_hist (hf : Z) (last : option Z) (w : list Z) : list Z :=
+  match w with
+  | [] => []
+  | it :: r =>
+      if (0 <? hf) && (it mod hf =? 0) && negb (match last with Some l => l =? it | None => false end)
+      then it :: abf_hist hf (Some it) r
+      else abf_hist hf last r
+  end.
+
+(* a buffered record file (metadynamics hills trajectory): add_hill appends a record to a buffer, write_output_files
+   appends the buffer to the file and clears it *)
+Inductive fevent (R : Type) := FRec (r : R) | FFlush.
+Arguments FRec {R}. Arguments FFlush {R}.
+Fixpoint flush_run {R} (file buf : list R) (evs : list (fevent R)) : list R * list R :=
+  match evs with
+  | [] => (file, buf)
+  | FRec r :: e => flush_run file (buf ++ [r]) e
+  | FFlush :: e => flush_run (file ++ buf) [] e
+  end.
+Definition records_of {R} (evs : list (fevent R)) : list R :=
+  flat_map (fun e => match e with FRec r => [r] | FFlush => [] end) evs.
+
 Local Close Scope Z_scope.
 
 (* =================================================================================================
@@ -492,7 +516,7 @@ Section Analysis.
     nsub O (nmul O (nmul O (ndiv O (nofZ O 3) (nofZ O 2)) c) c) (nhalf O).
 
   (* value types as lists of components, with the operations of colvarvalue / the cvc metric *)
-  Inductive vkind := KScalar | KPeriodic (period center : T) | KVector3 | KUnit3.
+  Inductive vkind := KScalar | KPeriodic (period center : T) | KVector3 | KUnit3 | KQuat.
   Fixpoint lv_add (a b : list T) : list T :=
     match a, b with x :: ar, y :: br => nadd O x y :: lv_add ar br | _, _ => [] end.
   Fixpoint lv_sub (a b : list T) : list T :=
@@ -503,7 +527,7 @@ Section Analysis.
   (* colvarvalue::apply_constraints, then colvar::wrap (cvc::wrap: x -= floor((x - center)/period + 0.5) period) *)
   Definition lv_constrain (k : vkind) (a : list T) : list T :=
     match k with
-    | KUnit3 => let n := nsqrt O (vnorm2 a) in map (fun x => ndiv O x n) a
+    | KUnit3 | KQuat => let n := nsqrt O (vnorm2 a) in map (fun x => ndiv O x n) a
     | KPeriodic p c =>
         match a with
         | x :: _ => [nsub O x (nmul O (nofZ O (nfloor O (nadd O (ndiv O (nsub O x c) p) (nhalf O)))) p)]
@@ -528,6 +552,12 @@ Section Analysis.
         let c := vdot a b in
         let c1 := if nltb O (n1 O) c then n1 O else if nltb O c (nneg O (n1 O)) then nneg O (n1 O) else c in
         let th := nacos O c1 in nmul O th th
+    | KQuat =>     (* cvm::quaternion::dist2: q and -q are the same rotation *)
+        let c := vdot a b in
+        let c1 := if nltb O (n1 O) c then n1 O else if nltb O c (nneg O (n1 O)) then nneg O (n1 O) else c in
+        let om := nacos O c1 in
+        if nltb O (n0 O) c then nmul O om om
+        else let d := nsub O (nacos O (nneg O (n1 O))) om in nmul O d d
     | _ => vnorm2 (lv_sub a b)
     end.
   Definition lv_ops (k : vkind) : vops (V := list T) := mkVops lv_add lv_scale (lv_near k) (lv_constrain k) (lv_dist2 k).
